@@ -33,6 +33,7 @@ type Parent struct {
 type MatCase struct {
 	Call    string   `json:"call"` // MdotM | MDOTM | Ew | VEw | MdotV | VdotM
 	Real    bool     `json:"real"`
+	Typ     string   `json:"typ,omitempty"` // element type of the matrices: "" (Float64 / Real64 by Real) | int | int32 | float32 | real32
 	F       int      `json:"f"` // element-wise: 0 add 1 sub 2 mul
 	Pat     string   `json:"pat"`
 	Parents []Parent `json:"parents"`
@@ -55,13 +56,67 @@ func buildWorld(c *MatCase) *world {
 		v := append([]float64{}, p.Vals...)
 		if p.IsVec {
 			w.vecs[i] = ad.NewDenseFloat64Vector(v)
-		} else if c.Real {
-			w.mats[i] = ad.NewDenseReal64Matrix(v, p.Rows, p.Cols)
 		} else {
-			w.mats[i] = ad.NewDenseFloat64Matrix(v, p.Rows, p.Cols)
+			w.mats[i] = newMatOf(c, v, p.Rows, p.Cols)
 		}
 	}
 	return w
+}
+
+// newMatOf: a dense matrix of the case's element type (the storageLocation() test and both buffered
+// schedules are generated per instantiation: every one is tied to the same Coq model)
+func newMatOf(c *MatCase, v []float64, rows, cols int) ad.Matrix {
+	switch c.Typ {
+	case "int":
+		x := make([]int, len(v))
+		for i := range v {
+			x[i] = int(v[i])
+		}
+		return ad.NewDenseIntMatrix(x, rows, cols)
+	case "int32":
+		x := make([]int32, len(v))
+		for i := range v {
+			x[i] = int32(v[i])
+		}
+		return ad.NewDenseInt32Matrix(x, rows, cols)
+	case "float32":
+		x := make([]float32, len(v))
+		for i := range v {
+			x[i] = float32(v[i])
+		}
+		return ad.NewDenseFloat32Matrix(x, rows, cols)
+	case "real32":
+		x := make([]float32, len(v))
+		for i := range v {
+			x[i] = float32(v[i])
+		}
+		return ad.NewDenseReal32Matrix(x, rows, cols)
+	}
+	if c.Real {
+		return ad.NewDenseReal64Matrix(v, rows, cols)
+	}
+	return ad.NewDenseFloat64Matrix(v, rows, cols)
+}
+func nullMatOf(c *MatCase, n, m int) ad.Matrix { return newMatOf(c, make([]float64, n*m), n, m) }
+
+// mdotmConcrete calls the concrete-typed twin MDOTM of the receiver's type.
+func mdotmConcrete(r, a, b ad.Matrix) {
+	switch rr := r.(type) {
+	case *ad.DenseReal64Matrix:
+		rr.MDOTM(a.(*ad.DenseReal64Matrix), b.(*ad.DenseReal64Matrix))
+	case *ad.DenseReal32Matrix:
+		rr.MDOTM(a.(*ad.DenseReal32Matrix), b.(*ad.DenseReal32Matrix))
+	case *ad.DenseFloat64Matrix:
+		rr.MDOTM(a.(*ad.DenseFloat64Matrix), b.(*ad.DenseFloat64Matrix))
+	case *ad.DenseFloat32Matrix:
+		rr.MDOTM(a.(*ad.DenseFloat32Matrix), b.(*ad.DenseFloat32Matrix))
+	case *ad.DenseIntMatrix:
+		rr.MDOTM(a.(*ad.DenseIntMatrix), b.(*ad.DenseIntMatrix))
+	case *ad.DenseInt32Matrix:
+		rr.MDOTM(a.(*ad.DenseInt32Matrix), b.(*ad.DenseInt32Matrix))
+	default:
+		panic("no MDOTM")
+	}
 }
 func (w *world) mview(v MView) ad.Matrix {
 	m := w.mats[v.Parent]
@@ -126,11 +181,7 @@ func (c *MatCase) exec() {
 			case "MdotM":
 				r.MdotM(a, b)
 			case "MDOTM":
-				if c.Real {
-					r.(*ad.DenseReal64Matrix).MDOTM(a.(*ad.DenseReal64Matrix), b.(*ad.DenseReal64Matrix))
-				} else {
-					r.(*ad.DenseFloat64Matrix).MDOTM(a.(*ad.DenseFloat64Matrix), b.(*ad.DenseFloat64Matrix))
-				}
+				mdotmConcrete(r, a, b)
 			default:
 				switch c.F {
 				case 0:
@@ -253,7 +304,7 @@ func (c *MatCase) Coq() string {
 		pre[i] = p.Vals
 	}
 	real := "false"
-	if c.Real {
+	if c.Real || c.Typ == "real32" {
 		real = "true"
 	}
 	hs := [3][]int{c.hdrCalc(c.MR).list(), c.hdrCalc(c.MA).list(), c.hdrCalc(c.MB).list()}
@@ -436,7 +487,7 @@ func genEw(r *Rng, real bool) *MatCase {
 		x, _ := randView(r, pi, c.Parents[pi].Rows, c.Parents[pi].Cols, n, m, t)
 		return x
 	}
-	pats := []string{"none", "r=a", "r=b", "r=a=b", "r-shift-a", "r=aT"}
+	pats := []string{"none", "r=a", "r=b", "r=a=b", "r-shift-a", "r=aT", "r,a-disjoint-same-storage", "r,a,b-disjoint-same-storage"}
 	c.Pat = pats[r.Intn(len(pats))]
 	switch c.Pat {
 	case "none":
@@ -459,6 +510,18 @@ func genEw(r *Rng, real bool) *MatCase {
 			v1, v2 = v2, v1
 		}
 		c.MR, c.MA, c.MB = v1, v2, v(p(n, m), true)
+	case "r,a-disjoint-same-storage", "r,a,b-disjoint-same-storage":
+		// row blocks of one parent: r, a (and b) are pairwise disjoint views of the same backing array
+		pi := p(3*n, m+1)
+		c0 := r.Range(0, 1)
+		blk := func(k int) MView { return MView{Parent: pi, Ops: []ViewOp{{R0: k * n, R1: (k + 1) * n, C0: c0, C1: c0 + m}}} }
+		ord := [][3]int{{0, 1, 2}, {1, 0, 2}, {2, 1, 0}, {1, 2, 0}}[r.Intn(4)]
+		c.MR, c.MA = blk(ord[0]), blk(ord[1])
+		if c.Pat == "r,a,b-disjoint-same-storage" {
+			c.MB = blk(ord[2])
+		} else {
+			c.MB = v(p(n, m), true)
+		}
 	case "r=aT":
 		n = m
 		pi := p(n+1, n+1)
@@ -564,12 +627,7 @@ func (c *MatCase) freshReference() (post []float64, panicked bool) {
 		a, b := w.mview(c.MA).CloneMatrix(), w.mview(c.MB).CloneMatrix()
 		rv := w.mview(c.MR)
 		n, m := rv.Dims()
-		var r ad.Matrix
-		if c.Real {
-			r = ad.NullDenseReal64Matrix(n, m)
-		} else {
-			r = ad.NullDenseFloat64Matrix(n, m)
-		}
+		r := nullMatOf(c, n, m)
 		switch c.Call {
 		case "MdotM", "MDOTM":
 			r.MdotM(a, b)
@@ -635,11 +693,7 @@ func (c *MatCase) aliasedResult() (post []float64, panicked bool) {
 		case "MdotM":
 			r.MdotM(a, b)
 		case "MDOTM":
-			if c.Real {
-				r.(*ad.DenseReal64Matrix).MDOTM(a.(*ad.DenseReal64Matrix), b.(*ad.DenseReal64Matrix))
-			} else {
-				r.(*ad.DenseFloat64Matrix).MDOTM(a.(*ad.DenseFloat64Matrix), b.(*ad.DenseFloat64Matrix))
-			}
+			mdotmConcrete(r, a, b)
 		default:
 			switch c.F {
 			case 0:
